@@ -175,6 +175,10 @@ func runC18(c *core.Ctx) {
 	if G <= 4 {
 		callsPerG = 60
 	}
+	// vary the degree of real parallelism: different preemption points, different interleavings
+	procs := []int{16, 16, 2, 16, 4, 16, 1, 16}[(c.Index/3)%8]
+	defer runtime.GOMAXPROCS(runtime.GOMAXPROCS(procs))
+	c.Feature(fmt.Sprintf("gomaxprocs:%d", procs))
 	// input pool in write-protected pages
 	large := c.Index%12 == 5 || c.Index%24 == 11
 	if large {
